@@ -148,7 +148,20 @@ class EngineC11:
             "tick": sw.choice([1e-4, 1e-2, 0.3]),
             "opts": opts,
         }
+        big = sw.random() < 0.007
+        if big:
+            # a sparse tensor with more than 2**15 stored entries (block sizes inside the library), one short solve
+            res.init.update({"x": None, "x_big": {"shape": [40, 40, sw.choice([22, 24, 30])], "seed": sw.randrange(10**6), "density": 0.95}, "sparse": True, "shape": None, "guess": None, "shared_guess": False, "rank": 2})
+            res.init["x_big"]["shape"] = list(res.init["x_big"]["shape"])
+            res.init["shape"] = res.init["x_big"]["shape"]
+            res.init["opts"] = dict(res.init["opts"], maxiters=1, maxinneriters=1, printitn=0, printinneritn=0)
         prob = self._problem(res.init)
+        if big:
+            step = {"op": "baseline"}
+            res.steps.append(step)
+            self._exec(prob, step, 0, res)
+            res.bump("probe:more_than_2**15_stored_entries")
+            return self._finish(res)
         # step 0: baseline decides how many deadline positions exist
         step = {"op": "baseline"}
         res.steps.append(step)
@@ -185,7 +198,13 @@ class EngineC11:
     # ---------------------------------------------------------------- problem
     def _problem(self, init) -> Dict[str, Any]:
         ttb = self.ttb
-        x = np.asarray(dec(init["x"]), dtype=float)
+        if init.get("x_big"):
+            # tens of thousands of cells: regenerated from its recipe rather than stored cell by cell
+            b = init["x_big"]
+            rs0 = np.random.RandomState(b["seed"])
+            x = ((rs0.random_sample(tuple(b["shape"])) < b["density"]) * rs0.randint(1, 6, size=tuple(b["shape"]))).astype(float)
+        else:
+            x = np.asarray(dec(init["x"]), dtype=float)
         store = np.int64 if init.get("int_storage") else float  # counts may well be held in integer arrays
         if init["sparse"]:
             subs = np.argwhere(x != 0)
